@@ -547,7 +547,10 @@ def run(ctx: Ctx):
     have_model = ctx.driver.available()
     ctx.extra["rule"] = (
         "random atom records (log-uniform magnitudes inside and beyond every column width) x keep_chain x whitespace; "
-        "a case is the tuple of field-width classes and flags; distinct = distinct tuples; trivial cases (none) excluded"
+        "a case is the tuple of field-width classes and flags; distinct = distinct tuples; trivial cases (none) excluded; "
+        "plus main_driver end to end on generated multi-chain structures and offline PDB files for {force-field run, --clean, --assign-only} x "
+        "--whitespace x --keep-chain, the written file read back against the returned biomolecule's atoms and against the chain IDs of the input "
+        "(a case = input x mode x flags; runs that write no file are counted under e2e-status and excluded)"
     )
 
     # ---- stored witnesses of known findings and the corpus run first
@@ -704,6 +707,9 @@ def run(ctx: Ctx):
             if not same_fields(mread, rr):
                 ctx.disagree("Atom.from_pqr_line(malformed)", {"line": l}, mread, rr)
 
+    # ---- tie 4: the whole program, every writer call site x --whitespace x --keep-chain
+    run_e2e(ctx)
+
 
 def impl_lines_pool(cases, n, rng):
     sel = rng.sample(cases, min(n, len(cases)))
@@ -764,8 +770,252 @@ def _outside(ctx):
     return f
 
 
+# ------------------------------------------------- tie 4: end to end through main_driver
+# The property's observation point is "bytes of the PQR file vs. atoms of the returned biomolecule" for
+# all flag combinations; the writer is reached from three places in main_driver (force-field run,
+# --clean, --assign-only), each of which passes the flags on by itself.
+
+E2E_MODES = ("ff", "clean", "assign-only")
+E2E_FFS = ["AMBER", "PARSE", "CHARMM", "SWANSON", "TYL06", "PEOEPB"]
+
+
+def e2e_options(mode, ff, ws, kc):
+    opts = {"ff": [f"--ff={ff}"], "clean": ["--clean"], "assign-only": [f"--ff={ff}", "--assign-only"]}[mode]
+    return opts + (["--whitespace"] if ws else []) + (["--keep-chain"] if kc else [])
+
+
+def gen_e2e_input(rng):
+    """a small structure with 2-3 chains (distinct one-letter IDs, upper and lower case), residue
+    numbers from negative to four digits, optionally an insertion code and chain-labelled waters"""
+    import gen_struct as G
+
+    nch = rng.choice([2, 2, 3])
+    ids = rng.sample(string.ascii_uppercase + string.ascii_lowercase, nch + 1)
+    chains, feats = [], set()
+    for ci in range(nch):
+        _f, res = G.window(rng, rng.choice([2, 3, 4]))
+        G.rigid(res, G.rotation(rng), (70.0 * ci, rng.uniform(-20, 20), rng.uniform(-20, 20)))
+        start = rng.choice([1, 1, 7, 42, -3, 98, 480, 997, 2345])
+        G.set_chain(res, ids[ci], start)
+        if start < 0:
+            feats.add("negative-resnum")
+        if start + len(res) > 1000:
+            feats.add("4-digit-resnum")
+        if len(res) >= 3 and rng.random() < 0.2:
+            # residue k shares the number of residue k-1 and carries an insertion code
+            k = rng.randint(1, len(res) - 1)
+            for j in range(k, len(res)):
+                for a in res[j]:
+                    a.resseq -= 1
+            for a in res[k]:
+                a.ins = "A"
+            feats.add("insertion-code")
+        chains.append(res)
+    waters = []
+    if rng.random() < 0.5:
+        wid = rng.choice([ids[nch - 1], ids[-1]])  # a water chain of its own or the last chain's ID
+        c = G.centroid(chains[-1])
+        waters = [G.water(rng, wid, 3000 + i, (c[0] + 40.0, c[1], c[2]), 6.0) for i in range(rng.randint(1, 2))]
+        feats.add("water")
+    return G.to_pdb(chains, waters), feats
+
+
+def input_records(text):
+    """(chain, resSeq, iCode, resName, hetero) of every ATOM/HETATM record of a PDB text (first model)"""
+    out = []
+    for l in text.splitlines():
+        if l.startswith("ENDMDL"):
+            break
+        if l.startswith(("ATOM  ", "HETATM")) and len(l) >= 54:
+            try:
+                out.append((l[21].strip(), int(l[22:26]), l[26].strip(), l[17:20].strip(), l.startswith("HETATM")))
+            except ValueError:
+                pass
+    return out
+
+
+def runs(seq):
+    out = []
+    for x in seq:
+        if not out or out[-1] != x:
+            out.append(x)
+    return out
+
+
+def model_fields(at):
+    """the computed model: one atom of the biomolecule main_driver returns"""
+    return {
+        "type": at.type,
+        "serial": at.serial,
+        "name": at.name,
+        "res_name": at.res_name,
+        "chain_id": at.chain_id or "",
+        "res_seq": at.res_seq,
+        "ins_code": at.ins_code or "",
+        "x": at.x,
+        "y": at.y,
+        "z": at.z,
+        "charge": at.ffcharge,
+        "radius": at.radius,
+    }
+
+
+def file_chain_resseq(line, ws):
+    """chain and residue number of one written atom record, read without any model knowledge.
+    Chain IDs of this stream are letters, so a leading letter of the residue part is the chain
+    even where it is glued to the number (a recorded format limit the line oracle reports)."""
+    import re
+
+    if not ws:
+        chain = line[21:22].strip()
+        try:
+            return chain, int(line[22:26])
+        except ValueError:
+            return chain, None
+    toks = line.split()
+    mid = "".join(toks[4:-5])  # between the residue name and x y z charge radius
+    chain = mid[0] if mid[:1].isalpha() else ""
+    m = re.fullmatch(r"(-?\d+)[A-Za-z]?", mid[len(chain) :])
+    return chain, (int(m.group(1)) if m else None)
+
+
+def e2e_prepare(text, mode):
+    """--assign-only is meant for complete structures: hydrogenate first. The hydrogenated file is then
+    *the input*; it is used only if it still carries the chain IDs of the generated one."""
+    import gen_struct as G
+
+    if mode != "assign-only":
+        return text, "as-generated"
+    pre = G.run_pipeline(text, ["--ff=AMBER", "--keep-chain", "--pdb-output=@DIR@/out.pdb"])
+    hyd = pre.extra_files.get("out.pdb") if pre.status == "ok" else None
+    if hyd and sorted(runs([r[0] for r in input_records(hyd)])) == sorted(runs([r[0] for r in input_records(text)])):
+        return hyd, "hydrogenated"
+    return text, "hydrogenation-unusable"
+
+
+def e2e_check(text, mode, ff, ws, kc, strict=True, suffix=".pdb"):
+    """one main_driver run; -> (status, n_lines, problems). A problem is
+    (level, signature-or-None, what, atom-or-None, line): level "driver" = the file differs from the model /
+    the request although the formatter alone writes that atom correctly; level "formatter" = the single-line
+    property fails for the model atom (handled, minimised and classified by oracle_line)."""
+    import gen_struct as G
+
+    opts = e2e_options(mode, ff, ws, kc)
+    r = G.run_pipeline(text, opts, suffix=suffix)
+    if r.status != "ok" or r.pqr is None or r.biomolecule is None:
+        return r.status if r.status != "ok" else "no-output", 0, []
+    layout = "ws" if ws else "fixed"
+    base_sig = {"stream": "main_driver", "mode": mode, "layout": layout, "keep_chain": kc}
+    problems = []
+    clean = mode == "clean"
+    model = [model_fields(at) for at in r.biomolecule.atoms if clean or (at.ffcharge is not None and at.radius is not None)]
+    atom_lines = [l for l in r.pqr.split("\n") if l[:4] == "ATOM" or l[:6] == "HETATM"]
+    # ---- (a) against the computed model
+    if len(atom_lines) != len(model):
+        problems.append(("driver", {**base_sig, "field": "file", "kind": "dropped"}, f"main_driver {' '.join(opts)}: {len(model)} model atoms with parameters, {len(atom_lines)} atom records written", None, None))
+    else:
+        for a, l in zip(model, atom_lines):
+            if len(a["name"]) > 4 or len(a["res_name"]) > 4 or len(a["chain_id"]) > 1:
+                continue
+            rr = impl_fromline(l + "\n") if ws else None
+            pr = problem(a, kc, ws, l + "\n", rr)
+            if pr is None:
+                continue
+            if real_line(a, kc, ws).rstrip("\n") == l:
+                problems.append(("formatter", None, pr[3], a, l))
+            else:
+                problems.append(("driver", {**base_sig, "field": pr[1], "kind": pr[2]}, f"main_driver {' '.join(opts)}: {pr[3]}", a, l))
+                break
+    # ---- (b) against the request: the chain IDs of the input file
+    recs = input_records(text)
+    in_keys = {(c, n) for c, n, _i, _r, _h in recs}
+    in_chains = {c for c, _n, _i, _r, _h in recs}
+    got = [file_chain_resseq(l, ws) for l in atom_lines]
+    bad = None
+    if not kc:
+        for (c, _n), l in zip(got, atom_lines):
+            if c != "":
+                bad = ("chain-not-requested", f"chain {c!r} written although --keep-chain was not given: {l!r}")
+                break
+    else:
+        for (c, n), l in zip(got, atom_lines):
+            if c not in in_chains or (n is not None and (c, n) not in in_keys):
+                bad = ("differs-from-input", f"record carries chain {c!r}, residue number {n}; the input file has no such residue (its chains: {sorted(in_chains)}): {l!r}")
+                break
+        if bad is None and atom_lines:
+            polymer = {c for c, _n, _i, rn, h in recs if not h}
+            missing = sorted(polymer - {c for c, _n in got})
+            if missing:
+                bad = ("chain-lost", f"chain(s) {missing} of the input's ATOM records appear on no written record")
+            elif strict and sorted(runs([c for c, _n in got])) != sorted(runs([c for c, _n, _i, _r, _h in recs])):
+                # pdb2pqr writes the chains sorted by ID, so only the partition into runs is compared, not their order
+                bad = ("chain-runs", f"chain runs written {runs([c for c, _n in got])}, input file has {runs([c for c, _n, _i, _r, _h in recs])}")
+    if bad is not None:
+        problems.append(("driver", {**base_sig, "field": "chain_id", "kind": bad[0]}, f"main_driver {' '.join(opts)}: {bad[1]}", None, None))
+    return "ok", len(atom_lines), problems
+
+
+def e2e_report(ctx: Ctx, text, mode, ff, ws, kc, strict, problems, source):
+    ok = True
+    for level, sig, what, a, l in problems:
+        if level == "formatter":
+            # same classification / minimisation / known-finding signatures as the single-line streams
+            oracle_line(ctx, a, kc, ws, l + "\n", impl_fromline(l + "\n") if ws else None)
+            ctx.count("e2e-formatter-level-failures(line oracle)")
+            continue
+        ok = False
+        ctx.violate(sig, what, {"e2e": {"pdb": text, "mode": mode, "ff": ff, "whitespace": ws, "keep_chain": kc, "strict": strict, "source": source}})
+    return ok
+
+
+def run_e2e(ctx: Ctx):
+    import gen_struct as G
+
+    rng = ctx.rng
+    inputs = []
+    for i in range(ctx.scale(5, 60)):
+        text, feats = gen_e2e_input(rng)
+        inputs.append((f"generated-{i}", text, True, feats))
+    for fn in ["1QBS.pdb"] + (["1AFS.pdb"] if ctx.thorough else []):
+        p = G.DATA / fn
+        if p.exists():
+            inputs.append((fn, p.read_text(), False, {"real"}))
+    for source, text0, strict, feats in inputs:
+        ff = rng.choice(E2E_FFS) if strict else "AMBER"
+        for f in feats:
+            ctx.count("e2e-input-features", f)
+        ctx.count("e2e-input-chains", len({r[0] for r in input_records(text0)}))
+        for mode in E2E_MODES:
+            text, prep = e2e_prepare(text0, mode)
+            if mode == "assign-only":
+                ctx.count("e2e-assign-only-input", prep)
+            for ws in (False, True):
+                for kc in (False, True):
+                    status, n, problems = e2e_check(text, mode, ff, ws, kc, strict)
+                    ctx.evaluations += 1
+                    ctx.count("e2e-runs", f"{mode},ws={int(ws)},kc={int(kc)}")
+                    ctx.count("e2e-status", status)
+                    if status != "ok":
+                        continue  # no file, nothing to read back (not this property's business)
+                    ctx.count("e2e-records-read-back", n=n)
+                    ctx.distinct.add(("e2e", source, mode, ws, kc))
+                    ok = e2e_report(ctx, text, mode, ff, ws, kc, strict, problems, source)
+                    ctx.count("e2e-oracle", "holds" if ok and not problems else "formatter-level-only" if ok else "fails")
+                    if source == "generated-0" and mode == "clean" and ws and kc:
+                        ctx.sample({"stream": "main_driver", "options": e2e_options(mode, ff, ws, kc), "records": n, "property_holds": ok}, limit=8)
+
+
 def replay(ctx: Ctx, data: dict) -> bool:
     rp = data.get("replay", data)
+    if "e2e" in rp:
+        e = rp["e2e"]
+        status, n, problems = e2e_check(e["pdb"], e["mode"], e["ff"], e["whitespace"], e["keep_chain"], e.get("strict", True))
+        print(f"main_driver {' '.join(e2e_options(e['mode'], e['ff'], e['whitespace'], e['keep_chain']))}: status {status}, {n} atom records")
+        hit = False
+        for level, sig, what, a, l in problems:
+            print("  ", level, what)
+            hit = hit or level == "driver"  # formatter-level failures have their own (single-atom) replays
+        return hit
     if "atom" in rp:
         a, kc, ws = rp["atom"], rp["keep_chain"], rp["whitespace"]
         at = mk_atom(a)
